@@ -422,6 +422,7 @@ def check(prop, tier, seed, only_legs=None):
     # violations: group, shrink, replay
     known = load_known()
     groups = {}
+    others = {}
     for leg, agg in aggs:
         for v in agg["violations"]:
             v["leg"] = leg["name"]
@@ -430,6 +431,7 @@ def check(prop, tier, seed, only_legs=None):
             cur = groups.get(key)
             if cur is None or (v.get("tape") is not None and len(v["tape"]) < len(cur[1].get("tape") or [0] * 10**6)):
                 groups[key] = (leg, v)
+            others.setdefault(key, []).append(v)
     n_viol = 0
     n_known = 0
     known_lines = []
@@ -452,42 +454,60 @@ def check(prop, tier, seed, only_legs=None):
             if line not in known_lines:
                 known_lines.append(line)
             continue
-        v2, shrunk = shrink_violation(prop, leg, v, shrink_budget)
-        rec = {
-            "property": prop,
-            "leg": leg["name"],
-            "python": leg["python"],
-            "verif_seed": seed,
-            "run_index": v2.get("index"),
-            "kind": v2["kind"],
-            "message": v2["message"],
-            "detail": v2.get("detail"),
-            "tape": v2.get("tape"),
-            "case": v2.get("case"),
-            "faults": v2.get("faults"),
-            "minimised": shrunk,
-            "original_tape_len": v2.get("original_tape_len"),
-        }
-        matched = None
-        for entry in known:
-            if known_match(mod, entry, v2):
-                matched = entry
+        # A violation found in a batch worker may owe something to what earlier runs in that worker left behind
+        # (state the code under test leaked across runs): such a run does not reproduce alone in a fresh
+        # interpreter. Try the other violations of the same (leg, kind), shortest tape first, until one does;
+        # only if none replays is the group reported as a harness error.
+        rest = [o for o in sorted(others.get(key, []), key=lambda o: len(o.get("tape") or [])) if o is not v]
+        step = max(1, len(rest) // 6)
+        cands = [v] + rest[::step][:6]
+        cand_errors = []
+        confirmed = None
+        for v in cands:
+            v2, shrunk = shrink_violation(prop, leg, v, shrink_budget)
+            rec = {
+                "property": prop,
+                "leg": leg["name"],
+                "python": leg["python"],
+                "verif_seed": seed,
+                "run_index": v2.get("index"),
+                "kind": v2["kind"],
+                "message": v2["message"],
+                "detail": v2.get("detail"),
+                "tape": v2.get("tape"),
+                "case": v2.get("case"),
+                "faults": v2.get("faults"),
+                "minimised": shrunk,
+                "original_tape_len": v2.get("original_tape_len"),
+            }
+            matched = None
+            for entry in known:
+                if known_match(mod, entry, v2):
+                    matched = entry
+                    break
+            if matched is not None:
+                n_known += 1
+                known_lines.append("KNOWN-FINDING: property=%s %s [%s]" % (prop, matched.get("what", ""), matched.get("id", "")))
+                confirmed = "known"
                 break
-        if matched is not None:
-            n_known += 1
-            known_lines.append("KNOWN-FINDING: property=%s %s [%s]" % (prop, matched.get("what", ""), matched.get("id", "")))
+            h = hashlib.sha256(json.dumps(rec, sort_keys=True).encode()).hexdigest()[:12]
+            path = os.path.join(VERIF, "replays", "%s-%s-%s.json" % (prop, leg["name"], h))
+            with open(path, "w") as f:
+                json.dump(rec, f, indent=1, sort_keys=True)
+            try:
+                ok, info = replay_file(path)
+            except Harness as e:
+                cand_errors.append("replay of %s failed: %s" % (path, e))
+                continue
+            if not ok:
+                cand_errors.append("unreplayable violation %s (%s): %r" % (path, v2["kind"], info))
+                continue
+            confirmed = "replayed"
+            break
+        if confirmed == "known":
             continue
-        h = hashlib.sha256(json.dumps(rec, sort_keys=True).encode()).hexdigest()[:12]
-        path = os.path.join(VERIF, "replays", "%s-%s-%s.json" % (prop, leg["name"], h))
-        with open(path, "w") as f:
-            json.dump(rec, f, indent=1, sort_keys=True)
-        try:
-            ok, info = replay_file(path)
-        except Harness as e:
-            harness_errors.append("replay of %s failed: %s" % (path, e))
-            continue
-        if not ok:
-            harness_errors.append("unreplayable violation %s (%s): %r" % (path, v2["kind"], info))
+        if confirmed is None:
+            harness_errors.extend(cand_errors[:1])
             continue
         n_viol += 1
         reported += 1
